@@ -282,6 +282,7 @@ def run(prop, cases, flavours_mode="reference", timeout_ms=20000, jobs=16, run_n
             else:
                 stats.inconclusive.append((c.tag, "%s/%s: %s %s" % (".".join(path), label, status, reason)))
     stats.wall = time.time() - t0
+    stats.host_results = results
     return stats, findings
 
 
